@@ -733,6 +733,7 @@ class FakeNet:
         self.lock = threading.RLock()
         self.select_calls = 0
         self.connect_addrs = []
+        self.transient_failures = {}   # host -> number of lookups that fail with EAI_AGAIN before the resolver answers
         self.scopes = {}           # IPv6 address -> scope id the resolver reports for it (link-local addresses)
         self.sock_ops = 0
         self.max_sock_ops = 500_000
@@ -750,6 +751,10 @@ class FakeNet:
 
     def getaddrinfo(self, host, port, family=0, type=0, proto=0, flags=0):
         self.gai_calls.append((host, port, int(family)))
+        if self.transient_failures.get(host, 0) > 0:
+            # a resolver that is briefly unavailable (EAI_AGAIN), then answers
+            self.transient_failures[host] -= 1
+            raise socket.gaierror(socket.EAI_AGAIN, 'Temporary failure in name resolution')
         r = self.resolve.get(host)
         if r is None:
             # literal addresses resolve to themselves, as the real resolver does
